@@ -338,6 +338,7 @@ func init() {
 				{Name: "receiver-small", Build: c02BuildReceiverSmall},
 				{Name: "sender-large", Build: c02BuildSenderLarge},
 				{Name: "sender-forged", Build: c02BuildSenderForged},
+				{Name: "sender-collisions", Build: c02BuildSenderCollisions},
 			}
 		},
 	})
@@ -415,4 +416,108 @@ func c02BuildSenderForged(tier string) core.Source {
 		res.Outcome = "ok/forged"
 		return res
 	}}
+}
+
+// c02BuildSenderCollisions: targets and bases assembled from whole 4-byte
+// blocks that collide in the weak checksum (e.g. abba / baab) plus one plain
+// block, so that collisions occur at every position relative to true matches
+// (first block, right after a match, before a match, as remainder).
+func c02BuildSenderCollisions(tier string) core.Source {
+	words := allStrings([]byte{'a', 0xfe}, 4)
+	byWeak := map[uint32][][]byte{}
+	for _, w := range words {
+		if len(w) == 4 {
+			byWeak[rp.Weak(w)] = append(byWeak[rp.Weak(w)], w)
+		}
+	}
+	var blocks [][]byte
+	for _, ws := range byWeak {
+		if len(ws) >= 2 {
+			blocks = append(blocks, ws...)
+		}
+	}
+	sortBytes(blocks)
+	blocks = append(blocks, []byte{'a', 'a', 'a', 0xfe})
+	maxBlocks := 3
+	var seqs [][]byte
+	var gen func(p []byte, n int)
+	gen = func(p []byte, n int) {
+		if n > 0 {
+			seqs = append(seqs, append([]byte{}, p...))
+		}
+		if n == maxBlocks {
+			return
+		}
+		for _, b := range blocks {
+			gen(append(p, b...), n+1)
+		}
+	}
+	gen(nil, 0)
+	// also unaligned tails: every sequence followed by a 1..3 byte remainder of the first block
+	n0 := len(seqs)
+	for i := 0; i < n0; i++ {
+		if len(seqs[i]) <= 8 {
+			seqs = append(seqs, append(append([]byte{}, seqs[i]...), blocks[0][:2]...))
+		}
+	}
+	return core.FuncSource{N: len(seqs), F: func(i int) core.Result {
+		target := seqs[i]
+		res := core.Result{Case: fmt.Sprintf("weak-collision blocks: target=%x against every basis assembled from %d colliding 4-byte blocks, B=4, strong length 16", target, len(blocks))}
+		mfs := fstest.MapFS{"t": &fstest.MapFile{Data: target, Mode: 0o644, ModTime: time.Unix(tm.Past, 0)}}
+		rs, err := peer.StartSender(sender.NewFSSource(mfs), "mod", []string{"/"}, []string{"--server", "--sender", "-r"}, c02Seed)
+		if err != nil {
+			res.Inconcl = err.Error()
+			return res
+		}
+		defer rs.Close()
+		fl, err := rp.DecodeList(rs.Gen.R, rp.ListOpts{})
+		if err != nil {
+			res.Fail = core.Fail("list_undecodable", err.Error())
+			return res
+		}
+		idx := int32(-1)
+		for k, e := range rp.SortedIndex(fl.Entries) {
+			if string(e.Name) == "t" {
+				idx = int32(k)
+			}
+		}
+		mixed := 0
+		for _, basis := range seqs {
+			head := rp.LegalHead(len(basis), 4, 16)
+			sums := rp.MakeSums(basis, head, c02Seed)
+			resp, err := rs.Gen.Request(idx, sums)
+			cnt(&res, "transitions", 1)
+			if err != nil {
+				res.Fail = core.Fail("sender_stopped", fmt.Sprintf("basis=%x: %v; sender error: %v", basis, err, rs.Close()))
+				return res
+			}
+			if f := c02CheckResponse(resp, idx, sums, basis, target, c02Seed); f != nil {
+				f.Features["collision_blocks"] = "true"
+				res.Fail = f
+				return res
+			}
+			for _, t := range resp.Toks {
+				if !t.IsLit() {
+					mixed++
+					break
+				}
+			}
+		}
+		rs.Gen.Finish(true)
+		cnt(&res, "states", res.Counters["transitions"])
+		cnt(&res, "traces_validated_against_impl", res.Counters["transitions"])
+		res.Nontrivial = mixed > 0
+		res.Outcome = fmt.Sprintf("ok/refs>0=%v", mixed > 0)
+		return res
+	}}
+}
+
+func sortBytes(b [][]byte) {
+	for i := range b {
+		for j := i + 1; j < len(b); j++ {
+			if bytes.Compare(b[j], b[i]) < 0 {
+				b[i], b[j] = b[j], b[i]
+			}
+		}
+	}
 }
